@@ -70,7 +70,30 @@ func (g *Gen) heightNear(s Snap) uint64 {
 	}
 }
 
+// next = next0 plus, on observing operations, an occasional dissenting oracle (reports another height for the same event)
 func (g *Gen) next(s Snap, remaining int) Op {
+	o := g.next0(s, remaining)
+	r := g.r
+	if (o.Kind == "Observe" && r.Chance(25)) || ((o.Kind == "ObserveResult" || o.Kind == "BatchExecuted") && r.Chance(10)) {
+		if o.H > 0 && !(remaining == 1 && g.endBad) {
+			d := g.heightNear(s)
+			switch r.Intn(3) {
+			case 0:
+				d = o.H + uint64(1+r.Intn(5000))
+			case 1:
+				if o.H > 1 {
+					d = o.H - 1
+				}
+			}
+			if d != 0 && d != o.H {
+				o.Dissent, o.DissentBy = d, []int{1, 1, 1, 0, 2}[r.Intn(5)]
+			}
+		}
+	}
+	return o
+}
+
+func (g *Gen) next0(s Snap, remaining int) Op {
 	r := g.r
 	if len(g.motif) > 0 {
 		o := g.motif[0]
@@ -84,7 +107,7 @@ func (g *Gen) next(s Snap, remaining int) Op {
 	if r.Chance(6) {
 		g.queueMotif(s)
 		if len(g.motif) > 0 {
-			return g.next(s, remaining)
+			return g.next0(s, remaining)
 		}
 	}
 	w := []int{22, 8, 8, 13, 8, 10, 8, 6, 6, 9, 2}
@@ -272,7 +295,20 @@ func (g *Gen) queueMotif(s Snap) {
 		h = uint64(100 + r.Intn(1000))
 		g.motif = append(g.motif, Op{Kind: "Observe", H: h})
 	}
-	switch r.Intn(5) {
+	switch r.Intn(6) {
+	case 5: // batch time-outs that are not monotone in the nonce: the older batch has the later time-out
+		nb := 1 + r.Intn(4)
+		g.motif = append(g.motif, Op{Kind: "Send", Sender: 0, Dest: 1, Amount: 10, Fee: 5, Token: tok})
+		for i := 0; i < nb; i++ {
+			g.motif = append(g.motif, Op{Kind: "NextBlock"})
+		}
+		g.motif = append(g.motif,
+			Op{Kind: "RequestBatch", Token: tok, Which: 1, FeeRcv: 0, BaseFee: 0, MinFee: 1, Auth: true},
+			Op{Kind: "Observe", H: h + 1},
+			Op{Kind: "Send", Sender: 1, Dest: 2, Amount: 20, Fee: 9, Token: tok},
+			Op{Kind: "NextBlock"},
+			Op{Kind: "RequestBatch", Token: tok, Which: 1, FeeRcv: 1, BaseFee: 0, MinFee: 1, Auth: true},
+		) // the heights that follow are drawn around the two live time-outs by heightNear
 	case 0: // two batches of one token; the second is executed while the first is still alive
 		g.motif = append(g.motif,
 			Op{Kind: "Send", Sender: 0, Dest: 1, Amount: 10, Fee: 5, Token: tok},
